@@ -137,7 +137,7 @@ def canon_storage(prog, mfin, sto):
     out = []
     for (name, t), v in zip(prog.sto, mfin):
         exp = H.flat_slots(v, t)
-        got = sto.get(name, [])
+        got = sto.get(name) or []     # None: immutable (no storage slot) / contract not deployed
         row = []
         for e, g in zip(exp, got):
             if e is None:
